@@ -448,3 +448,50 @@ func decodeCommitOps(rc recCommit) []decodedOp {
 	}
 	return out
 }
+
+// buildConcInitDense: block 0 completely full, block 1 holds rows at the first ten
+// offsets only. The lowest free offset is then 16394, right behind rows that
+// tasks own and delete - so an insert that runs while such a delete is in flight
+// is handed exactly that offset if the delete's fill bit was released too early.
+func buildConcInitDense(tasks int) *concInit {
+	key := fmt.Sprintf("dense/%d", tasks)
+	if ci, ok := concInitCache[key]; ok {
+		return ci
+	}
+	sch := concSchema(1024)
+	c := newCollection(sch, column.Options{})
+	defer c.Close()
+	m := NewModel(sch)
+	n := 16384 + 10
+	c.Query(func(txn *column.Txn) error {
+		for i := 0; i < n; i++ {
+			txn.Insert(func(r column.Row) error {
+				r.SetInt("a", i%7)
+				r.SetInt("m", i%5)
+				r.SetString("s", fmt.Sprintf("s%d", i%3))
+				return nil
+			})
+		}
+		return nil
+	})
+	for i := 0; i < n; i++ {
+		row := make(MRow, len(sch.Cols))
+		row[ccA] = Cell{Has: true, V: Value{B: uint64(i % 7)}}
+		row[ccM] = Cell{Has: true, V: Value{B: uint64(i % 5)}}
+		row[ccS] = Cell{Has: true, V: Value{S: fmt.Sprintf("s%d", i%3)}}
+		m.Rows[uint32(i)] = row
+	}
+	m.dirty()
+	ci := &concInit{Sch: sch, Blocks: 2, Owned: make([][]uint32, tasks), M: m}
+	ci.Shared = []uint32{0, 1, 63, 64, 16384, 16385}
+	for t := 0; t < tasks; t++ {
+		ci.Owned[t] = []uint32{uint32(200 + t), uint32(16384 + 2 + 2*t), uint32(16384 + 3 + 2*t)}
+	}
+	var buf bytes.Buffer
+	if err := c.Snapshot(&buf); err != nil {
+		panic(err)
+	}
+	ci.Snap = buf.Bytes()
+	concInitCache[key] = ci
+	return ci
+}
